@@ -6,6 +6,7 @@ The two recursive node methods are verified against recursive contracts over gho
 both unfolded one level by their defining equation (induction on the height of the subtree)."""
 import z3
 from pyvc.api import Contract, contract
+from contracts._frames import query_frame
 from pyvc.values import Obj, NdArr, z
 from pyvc import models
 
@@ -58,6 +59,7 @@ VARIANTS = [(a, b) for a in (False, True) for b in (False, True)]
 
 
 @contract(F + "::_DecisionTreeLogisticRegressionNode.predict_proba", "C10")
+@query_frame("self")
 class NodeProba(Contract):
     variants = VARIANTS
     max_paths = 20000
@@ -118,6 +120,7 @@ def cov_of(E, indices):
 
 
 @contract(F + "::_DecisionTreeLogisticRegressionNode.decision_path", "C10")
+@query_frame("self")
 class NodePath(Contract):
     variants = VARIANTS
     max_paths = 20000
@@ -178,6 +181,7 @@ class NodePath(Contract):
 
 
 @contract(F + "::_DecisionTreeLogisticRegressionNode.predict", "C10")
+@query_frame("self")
 class NodePredict(Contract):
     variants = VARIANTS
 
@@ -386,6 +390,7 @@ def _terminal_spec(o, childless_only=False):
 
 
 @contract(F + "::_DecisionTreeLogisticRegressionNode.enumerate_leaves_index", "C10")
+@query_frame("self")
 class EnumerateLeaves(Contract):
     """yields the index of every node where a row's path can end - every node lacking at least one side - once, parents first,
     `above` before `below`"""
